@@ -414,8 +414,11 @@ def run_property(pid, tier, seed, jobs=None, budget_s=None, runs=None, out=sys.s
                     small["trace"] = trace_of(mod, small)
             except Exception:
                 small["trace"] = []
-            name = "%s-%d-%d-%s.json" % (pid, seed, first["origin"]["run_index"],
-                                         derive_seed(*sig) % 100000)
+            # runs against a scratch copy (seeded changes) get their own file names: two of them may run at once
+            repo_ = os.path.realpath(os.environ.get("VERIF_REPO", "/repo"))
+            tag = "" if repo_ == os.path.realpath("/repo") else "-m%04d" % (derive_seed(repo_) % 10000)
+            name = "%s-%d-%d-%s%s.json" % (pid, seed, first["origin"]["run_index"],
+                                           derive_seed(*sig) % 100000, tag)
             path = os.path.join(REPLAY_DIR, name)
             with open(path, "w") as f:
                 json.dump(small, f, indent=1, sort_keys=True, default=str)
